@@ -71,14 +71,19 @@ def dist_case(args):
     from distributed_shampoo.shampoo_types import MAX_PRECONDITIONER_DIM, PARAMS, USE_MERGE_DIMS
     from distributed_shampoo.utils.shampoo_distributor import Distributor
 
-    shape, thr, merge = args
+    shape, thr, merge = args[:3]
+    dtname, as_param = args[3] if len(args) > 3 else ("float32", False)     # variant: storage dtype, nn.Parameter (requires_grad=True)
     try:
+        dt = getattr(torch, dtname)
         n = math.prod(shape)
         po = (thr + len(shape) + int(merge)) % 3           # the parameter itself starts at a non-zero storage offset
         go = (po + 1) % 3
-        pbase = torch.zeros(n + po + 2)
-        gbase = torch.zeros(n + go + 2)
+        pbase = torch.zeros(n + po + 2, dtype=dt)
+        gbase = torch.zeros(n + go + 2, dtype=dt)
         p = pbase[po:po + n].view(shape)
+        if as_param:
+            p = torch.nn.Parameter(p)                      # shares pbase's storage; blocks must come out detached (requires_grad False)
+            assert p.requires_grad and p.untyped_storage().data_ptr() == pbase.untyped_storage().data_ptr()
         p.grad = gbase[go:go + n].view(shape)
         d = Distributor({PARAMS: [p], MAX_PRECONDITIONER_DIM: thr, USE_MERGE_DIMS: merge})
         pb = d.local_blocked_params
@@ -89,11 +94,16 @@ def dist_case(args):
         nb = int(d._global_num_blocks_per_param[0])
         # update_params: block k receives base_k + 0,1,2,... in its own row-major order
         mb = d.local_masked_blocked_params
-        bases = [1000 * (k + 1) for k in range(len(mb))]
-        dirs = tuple(torch.arange(b.numel(), dtype=torch.float32).view(b.shape) + base for b, base in zip(mb, bases))
-        d.update_params(dirs)
-        storage = [int(x) for x in p.reshape(-1).tolist()]
+        step = 1000 if dtname in ("float32", "float64") else 16      # half-precision storage holds integers exactly only up to 256 (bfloat16)
+        bases = [step * (k + 1) for k in range(len(mb))]
+        if n <= 4096 and (step == 1000 or (len(mb) <= 14 and all(b.numel() <= 16 for b in mb))):
+            dirs = tuple((torch.arange(b.numel(), dtype=torch.float32).view(b.shape) + base).to(dt) for b, base in zip(mb, bases))
+            d.update_params(dirs)
+            storage = [int(x) for x in p.detach().reshape(-1).tolist()]
+        else:
+            storage = None                                 # too large for a literal / not exactly representable: update not observed
         ok_u = bool((pbase[:po] == 0).all()) and bool((pbase[po + n:] == 0).all()) and len(mb) == len(pb)
+        ok_p = ok_p and all(b.dtype == dt for b in pb) and all(b.dtype == dt for b in gb)
         return {"merged": merged, "nb": nb, "pb": [_geo(b, po) for b in pb], "gb": [_geo(b, go) for b in gb],
                 "ok_p": bool(ok_p), "ok_g": bool(ok_g), "bases": bases, "storage": storage, "ok_u": ok_u}
     except Exception as ex:  # noqa
@@ -239,7 +249,11 @@ def multicall_case(args):
         out = []
         for pat in seq:
             for i, (p, on) in enumerate(zip(ps, pat)):
-                p.grad = (torch.arange(p.numel(), dtype=torch.float32).reshape(p.shape) + 1000 * i) if on else None
+                G = (torch.arange(p.numel(), dtype=torch.float32).reshape(p.shape) + 1000 * i) if on else None
+                if on and p.dim() >= 2 and len(out) % 2 == 1:      # every second call: same values, transposed storage (a fresh layout per call)
+                    perm = list(reversed(range(p.dim())))
+                    G = G.permute(perm).contiguous().permute(perm)
+                p.grad = G
             try:
                 gb = d.merge_and_block_gradients()
                 mb = d.local_masked_blocked_params
@@ -289,7 +303,7 @@ def split_case(args):
 
 def inv_configs():
     from distributed_shampoo import (AdaGradGraftingConfig, AdamGraftingConfig, DefaultEigenvalueCorrectedShampooConfig,
-                                     DefaultSOAPConfig, RMSpropGraftingConfig, SGDGraftingConfig)
+                                     DefaultSOAPConfig, RMSpropGraftingConfig, SGDGraftingConfig, ShampooPreconditionerConfig)
     return [
         ("shampoo+adagrad,momentum,decoupled-wd", dict(lr=0.01, betas=(0.9, 0.999), momentum=0.5, weight_decay=0.01, precondition_frequency=1,
                                                        start_preconditioning_step=2, grafting_config=AdaGradGraftingConfig(epsilon=1e-8))),
@@ -302,8 +316,13 @@ def inv_configs():
                              preconditioner_config=DefaultSOAPConfig, weight_decay=0.01)),
         ("eigenvalue-corrected(eigh),momentum", dict(lr=0.01, betas=(0.9, 0.95), precondition_frequency=1, start_preconditioning_step=2,
                                                      preconditioner_config=DefaultEigenvalueCorrectedShampooConfig, momentum=0.3)),
-        ("shampoo+rmsprop,no-bias-correction", dict(lr=0.01, betas=(0.5, 0.9), precondition_frequency=1, start_preconditioning_step=1,
-                                                    grafting_config=RMSpropGraftingConfig(beta2=0.9, epsilon=1e-8), use_bias_correction=False)),
+        ("shampoo+rmsprop,no-bias-correction,inv_root_override2", dict(lr=0.01, betas=(0.5, 0.9), precondition_frequency=1, start_preconditioning_step=1,
+                                                    grafting_config=RMSpropGraftingConfig(beta2=0.9, epsilon=1e-8), use_bias_correction=False, inv_root_override=2)),
+        ("shampoo+adam,ignored_dims[0]", dict(lr=0.01, betas=(0.9, 0.99), precondition_frequency=1, start_preconditioning_step=1,
+                                              preconditioner_config=ShampooPreconditionerConfig(ignored_dims=[0]),
+                                              grafting_config=AdamGraftingConfig(beta2=0.99, epsilon=1e-8))),
+        ("adam-grafting-only(never preconditions),beta3,dampening", dict(lr=0.01, betas=(0.9, 0.99), beta3=0.8, momentum=0.5, dampening=0.3, precondition_frequency=1,
+                                                                         start_preconditioning_step=1000, grafting_config=AdamGraftingConfig(beta2=0.99, epsilon=1e-8))),
         ("shampoo,no-grafting", dict(lr=0.01, betas=(0.9, 1.0), precondition_frequency=1, start_preconditioning_step=1, grafting_config=None)),
     ]
 
@@ -311,47 +330,98 @@ def inv_configs():
 INV_TOL = 1e-12
 
 
+INV_KINDS = ("normal", "zero_block", "tiny", "huge", "absent_step", "two_alternating", "two_groups", "layout_grad")
+
+
 def inv_case(args):
     """Blocked run A vs the same blocks as separate parameters: B1 = same-strided views of a clone of the
-    parameter (same kernels: bit-exact expected), B2 = contiguous clones (tolerance 1e-12).  Implementation vs implementation."""
+    parameter (same kernels: bit-exact expected), B2 = contiguous clones (tolerance 1e-12).  Implementation vs implementation.
+    args = (config, shape, b, merge, eps, steps, seed[, kind, param dtype, preconditioner dtype]); kinds:
+      zero_block      the gradient is exactly zero on block 0 of the tensor at every step (present, not None)
+      tiny / huge     gradient magnitude 1e-5 / 1e4
+      absent_step     no gradient at all at step 3
+      two_alternating two equal-shaped tensors in the group whose gradients alternate: w1, w2, w1, both, w2, ...
+      two_groups      a second tensor in a second parameter group with another max_preconditioner_dim
+      layout_grad     the gradient of the blocked tensor is stored transposed (reversed dims)"""
     import torch
     from distributed_shampoo import DistributedShampoo
     from distributed_shampoo.shampoo_types import DISTRIBUTOR
 
-    ci, shape, b, merge, eps, steps, seed = args
+    import logging
+    logging.disable(logging.WARNING)      # the optimizer logs every change of the gradient selector
+    ci, shape, b, merge, eps, steps, seed = args[:7]
+    kind, pdt, qdt = tuple(args[7:10]) if len(args) >= 10 else ("normal", "float64", "float64")
     try:
         name, kw = inv_configs()[ci]
-        kw = dict(kw, epsilon=eps)
+        pdtype, qdtype = getattr(torch, pdt), getattr(torch, qdt)
+        kw = dict(kw, epsilon=eps, preconditioner_dtype=qdtype)
         g = torch.Generator().manual_seed(seed)
-        W0 = torch.randn(shape, dtype=torch.float64, generator=g)
-        grads = [torch.randn(shape, dtype=torch.float64, generator=g) for _ in range(steps)]
-        pA = W0.clone()
-        optA = DistributedShampoo([pA], max_preconditioner_dim=b, use_merge_dims=merge, preconditioner_dtype=torch.float64, **kw)
-        blocksA = optA._per_group_state_lists[0][DISTRIBUTOR].local_blocked_params
-        geo = [(tuple(x.shape), tuple(x.stride()), x.storage_offset()) for x in blocksA]
-        W1 = W0.clone()
-        pB1 = [torch.as_strided(W1, sh, st, off) for sh, st, off in geo]
-        pB2 = [x.clone().contiguous() for x in blocksA]
-        big = 10 ** 6
-        optB1 = DistributedShampoo(pB1, max_preconditioner_dim=big, use_merge_dims=False, preconditioner_dtype=torch.float64, **kw)
-        optB2 = DistributedShampoo(pB2, max_preconditioner_dim=big, use_merge_dims=False, preconditioner_dtype=torch.float64, **kw)
-        for G in grads:
-            pA.grad = G.clone()
+        # tensors: (shape, group); groups: max_preconditioner_dim per group
+        if kind == "two_alternating":
+            tensors, gdims = [(shape, 0), (shape, 0)], [b]
+        elif kind == "two_groups":
+            tensors, gdims = [(shape, 0), (tuple(reversed(shape)), 1)], [b, b + 1]
+        else:
+            tensors, gdims = [(shape, 0)], [b]
+        scale = {"tiny": 1e-5, "huge": 1e4}.get(kind, 1.0)
+        W0 = [torch.randn(sh, dtype=torch.float64, generator=g).to(pdtype) for sh, _ in tensors]
+        grads = [[(torch.randn(sh, dtype=torch.float64, generator=g) * scale).to(pdtype) for sh, _ in tensors] for _ in range(steps)]
+
+        def present(t, i):
+            if kind == "absent_step" and t == 2:
+                return False
+            if kind == "two_alternating":
+                return ((True, False), (False, True), (True, False), (True, True), (False, True), (True, False))[t % 6][i]
+            return True
+
+        def groups_of(params_of_tensor, big):
+            return [{"params": [q for (sh, gi), qs in zip(tensors, params_of_tensor) if gi == gidx for q in qs],
+                     "max_preconditioner_dim": (10 ** 6 if big else gd)} for gidx, gd in enumerate(gdims)]
+
+        pA = [w.clone() for w in W0]
+        optA = DistributedShampoo(groups_of([[q] for q in pA], False), use_merge_dims=merge, **kw)
+        owner = {q.untyped_storage().data_ptr(): i for i, q in enumerate(pA)}
+        blocksA = [[] for _ in tensors]
+        for gidx in range(len(gdims)):
+            for x in optA._per_group_state_lists[gidx][DISTRIBUTOR].local_blocked_params:
+                blocksA[owner[x.untyped_storage().data_ptr()]].append(x)
+        geo = [[(tuple(x.shape), tuple(x.stride()), x.storage_offset()) for x in bl] for bl in blocksA]
+        if kind == "zero_block":
+            for G in grads:
+                sh, st, off = geo[0][0]
+                torch.as_strided(G[0], sh, st, off).zero_()
+        W1 = [w.clone() for w in W0]
+        pB1 = [[torch.as_strided(w1, sh, st, off) for sh, st, off in ge] for w1, ge in zip(W1, geo)]
+        pB2 = [[x.clone().contiguous() for x in bl] for bl in blocksA]
+        optB1 = DistributedShampoo(groups_of(pB1, True), use_merge_dims=False, **kw)
+        optB2 = DistributedShampoo(groups_of(pB2, True), use_merge_dims=False, **kw)
+        for t, Gs in enumerate(grads):
+            for i, (q, G) in enumerate(zip(pA, Gs)):
+                if not present(t, i):
+                    q.grad = None
+                elif kind == "layout_grad" and G.dim() >= 2:
+                    perm = list(reversed(range(G.dim())))
+                    q.grad = G.permute(perm).contiguous().permute(perm)     # same values, transposed storage
+                else:
+                    q.grad = G.clone()
             optA.step()
-            G1 = G.clone()
-            for q1, q2, (sh, st, off) in zip(pB1, pB2, geo):
-                q1.grad = torch.as_strided(G1, sh, st, off)
-                q2.grad = torch.as_strided(G, sh, st, off).clone()
+            for i, G in enumerate(Gs):
+                G1 = G.clone()
+                for q1, q2, (sh, st, off) in zip(pB1[i], pB2[i], geo[i]):
+                    q1.grad = torch.as_strided(G1, sh, st, off) if present(t, i) else None
+                    q2.grad = torch.as_strided(G, sh, st, off).clone() if present(t, i) else None
             optB1.step()
             optB2.step()
         d1 = d2 = 0.0
-        for x, q1, q2 in zip(blocksA, pB1, pB2):
-            if x.shape != q1.shape or x.shape != q2.shape:
-                return {"exc": "shape mismatch"}
-            d1 = max(d1, float((x - q1).abs().max()))
-            d2 = max(d2, float((x - q2).abs().max()))
-        finite = bool(torch.isfinite(pA).all())
-        return {"d1": d1, "d2": d2, "nblocks": len(geo), "moved": float((pA - W0).abs().max()), "finite": finite, "cfg": name}
+        for i in range(len(tensors)):
+            for x, q1, q2 in zip(blocksA[i], pB1[i], pB2[i]):
+                if x.shape != q1.shape or x.shape != q2.shape:
+                    return {"exc": "shape mismatch"}
+                d1 = max(d1, float((x.double() - q1.double()).abs().max()))
+                d2 = max(d2, float((x.double() - q2.double()).abs().max()))
+        finite = all(bool(torch.isfinite(q).all()) for q in pA)
+        moved = [float((q.double() - w.double()).abs().max()) for q, w in zip(pA, W0)]
+        return {"d1": d1, "d2": d2, "nblocks": sum(len(ge) for ge in geo), "moved": moved, "finite": finite, "cfg": name}
     except Exception as ex:  # noqa
         return {"exc": type(ex).__name__ + ": " + str(ex)[:300]}
 
@@ -408,6 +478,36 @@ def run(ck: Check) -> None:
     maxn = 64 if thorough else 32
     shapes = shapes_upto(maxn, 4)
     dwork = [(sh, thr, mg) for sh in shapes for thr in THRS for mg in (True, False)]
+    dvar = [("float32", False)] * len(dwork)
+    dclass = ["exhaustive_order0-4"] * len(dwork)
+
+    def add_d(sh, thr, mg, var, cls):
+        dwork.append((tuple(sh), thr, mg)); dvar.append(var); dclass.append(cls)
+
+    # quantifier audit: input classes the exhaustive sweep does not contain
+    small = [sh for sh in shapes_upto(8, 4) if len(sh) >= 1]
+    for sh in small:                                       # storage dtypes other than float32; nn.Parameter (requires_grad=True)
+        for thr in (2, 3, 1024):
+            for mg in (True, False):
+                for dtn in ("float16", "bfloat16", "float64"):
+                    add_d(sh, thr, mg, (dtn, False), "dtype_" + dtn)
+                add_d(sh, thr, mg, ("float32", True), "nn_Parameter_requires_grad")
+    for _ in range(300 if thorough else 60):               # order 5..6 (the theorems hold for any order; the property names 0..4)
+        sh = tuple(rng.choice((1, 2, 2, 3)) for _ in range(rng.choice((5, 6))))
+        if math.prod(sh) <= 72:
+            add_d(sh, rng.choice((1, 2, 3, 4, 6, 1024)), rng.random() < 0.5, ("float32", rng.random() < 0.3), "order_5_6")
+    for sh in ((), (1,), (5,), (3, 4), (2, 1, 3), (4, 2, 2, 3)):   # max_preconditioner_dim at the int32 / int64 boundaries
+        for thr in (2 ** 31 - 1, 2 ** 31, 2 ** 63 - 1):
+            for mg in (True, False):
+                add_d(sh, thr, mg, ("float32", False), "huge_max_preconditioner_dim")
+    nbig = 0
+    while nbig < (400 if thorough else 48):                # large parameters through a real Distributor: sizes that are no multiples of the block size
+        sh = tuple(rng.choice((1, 3, 17, 63, 64, 65, 100, 129, 257, 1000)) for _ in range(rng.randint(1, 4)))
+        thr = rng.choice((7, 16, 64, 100, 128, 1024, 8192))
+        if math.prod(sh) > 300000 or math.prod((x + thr - 1) // thr for x in sh) > 200:
+            continue
+        add_d(sh, thr, rng.random() < 0.5, ("float32", rng.random() < 0.3), "large_parameter")
+        nbig += 1
 
     # ---- (a2) random large shapes for the two utilities --------------------------------------
     nmerge = 20000 if thorough else 2000
@@ -437,8 +537,8 @@ def run(ck: Check) -> None:
         swork.append((sh, b))
 
     # ---- (b) invariance runs -----------------------------------------------------------------
-    ncfg = 7
-    nshapes = 160 if thorough else 14
+    ncfg = len(inv_configs())
+    nshapes = 160 if thorough else 12
     iwork = []
     while len(iwork) < nshapes * ncfg:
         order = rng.randint(1, 4)
@@ -450,6 +550,24 @@ def run(ck: Check) -> None:
         for ci in range(ncfg):
             eps = rng.choice((1e-12, 1e-8, 1e-6))
             iwork.append((ci, sh, b, mg, eps, rng.choice((5, 6)), rng.randrange(10 ** 6)))
+    # quantifier audit ("all optimizer configurations and gradient sequences"): gradient-sequence classes and dtype pairings
+    naudit = 40 if thorough else 5
+    for kind in INV_KINDS[1:]:
+        k = 0
+        while k < naudit:
+            order = rng.randint(2 if kind in ("layout_grad", "two_groups") else 1, 3)
+            sh = tuple(rng.choice((2, 3, 4, 5, 7)) for _ in range(order))
+            b = rng.choice((2, 3, 4))
+            if math.prod(sh) > 200 or math.prod((d + b - 1) // b for d in sh) > 40 or (kind == "zero_block" and math.prod((d + b - 1) // b for d in sh) < 2):
+                continue
+            # a transposed-storage gradient goes through other kernels than the same-strided block gradients: keep the conditioning benign there
+            iwork.append((rng.randrange(ncfg), sh, b, rng.random() < 0.5, 1e-6 if kind == "layout_grad" else rng.choice((1e-12, 1e-8)), 6, rng.randrange(10 ** 6), kind, "float64", "float64"))
+            k += 1
+    for pdt, qdt in (("float32", "float32"), ("float32", "float64"), ("bfloat16", "float32"), ("float16", "float32")):
+        for k in range(naudit):
+            sh = tuple(rng.choice((2, 3, 4, 5, 7)) for _ in range(rng.randint(1, 3)))
+            ci = rng.randrange(ncfg) if pdt == "float32" else rng.choice((0, 1, 2, 5))     # half precision: eigen-based Shampoo configs only (no half-precision QR/eigh paths)
+            iwork.append((ci, sh, rng.choice((2, 3, 4)), rng.random() < 0.5, 1e-8, 5, rng.randrange(10 ** 6), "normal", pdt, qdt))
 
     # ---- (a3) gradient-layout stream: gradients whose memory layout differs from the parameter's ---
     gmaxn = 36 if thorough else 24
@@ -495,7 +613,7 @@ def run(ck: Check) -> None:
         ires_async = pool.map_async(inv_case, iwork, chunksize=4)
         pres = pool.map(paramlayout_case, pwork, chunksize=64)
         qres = pool.map(multicall_case, qwork, chunksize=8)
-        dres = pool.map(dist_case, dwork, chunksize=64)
+        dres = pool.map(dist_case, [w + (v,) for w, v in zip(dwork, dvar)], chunksize=64)
         gres = pool.map(gradlayout_case, gwork, chunksize=64)
         mres = pool.map(merge_case, mwork, chunksize=256)
         sres = pool.map(split_case, swork, chunksize=16)
@@ -515,7 +633,7 @@ def run(ck: Check) -> None:
             ditems.append(f"andb {coq_bool(r['ok_p'])} (let pb := {views(r['pb'])} in agree_distributor {sh_thr_mg(w)} {zs(r['merged'])} {r['nb']} pb pb)")
         else:
             ditems.append(f"andb {coq_bool(r['ok_p'])} (agree_distributor {sh_thr_mg(w)} {zs(r['merged'])} {r['nb']} {views(r['pb'])} {views(r['gb'])})")
-        ditems.append(f"andb {coq_bool(r['ok_u'])} (agree_update {sh_thr_mg(w)} {zs(r['bases'])} {zs(r['storage'])})")
+        ditems.append(coq_bool(r["ok_u"]) if r["storage"] is None else f"andb {coq_bool(r['ok_u'])} (agree_update {sh_thr_mg(w)} {zs(r['bases'])} {zs(r['storage'])})")
     mitems = ["false" if "exc" in r else f"agree_merge {zs(sh)} {thr} {zs(r['out'])}" for (sh, thr), r in zip(mwork, mres)]
     sitems = ["false" if "exc" in r else f"andb {coq_bool(r['ok'])} (agree_split {zs(sh)} {b} {views(r['views'])})" for (sh, b), r in zip(swork, sres)]
     gitems = []
@@ -545,12 +663,19 @@ def run(ck: Check) -> None:
                 qitems.append("false")
             else:
                 qitems.append(f"agree_multi {shl} {w[1]} {coq_bool(w[2])} [{'; '.join(map(coq_bool, pat))}] [{'; '.join(map(coq_bool, r['sel']))}] {views(r['p'])} {gvals(r['g'])}")
-    dflat = eval_items(ck, "c05_d", ditems, 400)
-    pflat = eval_items(ck, "c05_p", pitems, 600)
-    qflat = eval_items(ck, "c05_q", qitems, 300)
-    gflat = eval_items(ck, "c05_g", gitems, 600)
-    mflat = eval_items(ck, "c05_m", mitems, 1500)
-    sflat = eval_items(ck, "c05_s", sitems, 100)
+    # one coqc batch for all streams (better packing over the 16 workers than one batch per stream)
+    streams = {"c05_d": (ditems, 400), "c05_p": (pitems, 600), "c05_q": (qitems, 300), "c05_g": (gitems, 600), "c05_m": (mitems, 1500), "c05_s": (sitems, 100)}
+    srcs, nfiles = {}, {}
+    for prefix, (items, per_file) in streams.items():
+        chunks_ = list(common.chunks(items, per_file)) if items else []
+        nfiles[prefix] = len(chunks_)
+        for fi, chunk in enumerate(chunks_):
+            srcs[f"{prefix}_{fi:04d}"] = HEADER + "Definition results : list bool := [\n" + ";\n".join(chunk) + "].\nEval vm_compute in show_bools results.\n"
+    out_all = ck.eval_coq(srcs)
+    flats = {prefix: "".join(out_all[f"{prefix}_{fi:04d}"][0] for fi in range(nfiles[prefix])) for prefix in streams}
+    for prefix, (items, _) in streams.items():
+        assert len(flats[prefix]) == len(items), (prefix, len(flats[prefix]), len(items))
+    dflat, pflat, qflat, gflat, mflat, sflat = (flats[k] for k in ("c05_d", "c05_p", "c05_q", "c05_g", "c05_m", "c05_s"))
 
     bad_d = [i for i in range(len(dwork)) if dflat[2 * i] != "T"]
     bad_u = [i for i in range(len(dwork)) if dflat[2 * i] == "T" and dflat[2 * i + 1] != "T"]
@@ -576,7 +701,7 @@ def run(ck: Check) -> None:
                 continue
             citems.append(f"andb {coq_bool(r['ok_p'])} (C05_checkb {sh_thr_mg(w)} {views(r['pb'])})")
             citems.append(f"(C05_grad_checkb {views(r['pb'])} {views(r['gb'])})")
-            citems.append(f"andb {coq_bool(r['ok_u'])} (update_okb {views(r['pb'])} {zs(r['bases'])} {zs(r['storage'])})")
+            citems.append(coq_bool(r["ok_u"]) if r["storage"] is None else f"andb {coq_bool(r['ok_u'])} (update_okb {views(r['pb'])} {zs(r['bases'])} {zs(r['storage'])})")
         cflat = eval_items(ck, "c05_chk", citems, 300)
         failing = []
         for j, i in enumerate(cidx):
@@ -607,9 +732,9 @@ def run(ck: Check) -> None:
                     "update": "update_params did not add direction k exactly to the elements block k addresses"}[f[0]]
             if "exc" in r:
                 what = f"construction / merge_and_block_gradients / update_params raised {r['exc']}"
-            ck.report(None, f"Distributor violates C05 on shape={list(w[0])} max_preconditioner_dim={w[1]} use_merge_dims={w[2]}: {what}"
+            ck.report(None, f"Distributor violates C05 on shape={list(w[0])} max_preconditioner_dim={w[1]} use_merge_dims={w[2]} (dtype={dvar[i][0]}, nn.Parameter={dvar[i][1]}): {what}"
                             + ("" if "exc" in r else f"; blocks={r['pb'][:6]}"),
-                      {"kind": "distributor", "shape": list(w[0]), "thr": w[1], "merge": w[2], "failed_predicates": f, "impl": r,
+                      {"kind": "distributor", "shape": list(w[0]), "thr": w[1], "merge": w[2], "var": list(dvar[i]), "class": dclass[i], "failed_predicates": f, "impl": r,
                        "n_failing": len(failing), "predicate": "C05_checkb / C05_grad_checkb / update_okb on the implementation's output, and storage identity"})
         if ufail:
             kind, i = ufail[0]
@@ -628,6 +753,7 @@ def run(ck: Check) -> None:
                             f"{len(bad_s)} multi_dim_split cases; first: {first[0]} {first[1]}) but the implementation's output still passes the certified checkers",
                       {"kind": first[0] if first[0] != "update" else "distributor", "broken": "Blocking.agree_* (model vs implementation)",
                        "shape": list(first[1][0]), "thr": first[1][1], "b": first[1][1], "merge": first[1][2] if len(first[1]) > 2 else None, "impl": first[2],
+                       "var": list(dvar[(bad_d or bad_u)[0]]) if (bad_d or bad_u) else None,
                        "theorems_not_transferring": transfer}, no_failing_input=True)
 
     # ---- gradient-layout stream: values-based certified checker on the implementation's own output ----
@@ -739,7 +865,8 @@ def run(ck: Check) -> None:
         cfg_hist[r["cfg"]] = cfg_hist.get(r["cfg"], 0) + 1
         exact1 += r["d1"] == 0.0
         max1 = max(max1, r["d1"])
-        check2 = w[4] >= 1e-8     # contiguous clones use other kernels: 1-ulp noise, amplified when epsilon is tiny -> measured only
+        # contiguous clones use other kernels: 1-ulp noise, amplified when epsilon is tiny / gradients are degenerate / storage is low precision -> measured only there
+        check2 = w[4] >= 1e-8 and (len(w) < 10 or tuple(w[7:10]) == ("normal", "float64", "float64"))
         if check2:
             exact2 += r["d2"] == 0.0
             max2 = max(max2, r["d2"])
@@ -800,6 +927,68 @@ def run(ck: Check) -> None:
             "contiguous_clones_eps>=1e-8": {"bit_exact": exact2, "max_abs_diff": max2},
             "failing": len(inv_bad), "exceptions": len(inv_exc)},
     })
+    # ---- quantifier audit: every input class the property's quantifier names or plainly allows, with the number of cases generated in THIS run
+    def merged_of(i):
+        return dres[i].get("merged") or []
+    okd = [i for i in range(len(dwork)) if "exc" not in dres[i]]
+    kinds_i = {}
+    for w in iwork:
+        k = "inv_kind_" + (w[7] if len(w) >= 10 else "normal")
+        kinds_i[k] = kinds_i.get(k, 0) + 1
+        if len(w) >= 10 and (w[8], w[9]) != ("float64", "float64"):
+            kk = f"inv_dtype_param_{w[8]}_precond_{w[9]}"
+            kinds_i[kk] = kinds_i.get(kk, 0) + 1
+    audit = {f"distributor_order_{o}": sum(1 for w in dwork if len(w[0]) == o) for o in range(7)}
+    audit.update({
+        "distributor_shape_with_size1_dim": sum(1 for w in dwork if 1 in w[0]),
+        "distributor_all_ones_or_order0 (merge result [1])": sum(1 for w in dwork if all(x == 1 for x in w[0])),
+        "merge_on": sum(1 for w in dwork if w[2]), "merge_off": sum(1 for w in dwork if not w[2]),
+        "max_preconditioner_dim_1": sum(1 for w in dwork if w[1] == 1),
+        "max_preconditioner_dim_equals_a_dim": sum(1 for w in dwork if w[1] in w[0]),
+        "max_preconditioner_dim_equals_product_of_adjacent_dims (boundary of <=)": sum(1 for w in dwork if any(math.prod(w[0][a:b2]) == w[1] for a in range(len(w[0])) for b2 in range(a + 2, len(w[0]) + 1))),
+        "max_preconditioner_dim_one_below_such_a_product": sum(1 for w in dwork if any(math.prod(w[0][a:b2]) == w[1] + 1 for a in range(len(w[0])) for b2 in range(a + 2, len(w[0]) + 1))),
+        "max_preconditioner_dim_at_least_numel (single block when merging)": sum(1 for w in dwork if w[1] >= math.prod(w[0])),
+        "huge_max_preconditioner_dim (2^31-1, 2^31, 2^63-1)": dclass.count("huge_max_preconditioner_dim"),
+        "dim_larger_than_limit_with_remainder": sum(1 for i in okd if any(x > dwork[i][1] and x % dwork[i][1] for x in merged_of(i))),
+        "dim_exact_multiple_of_limit": sum(1 for i in okd if any(x > dwork[i][1] and x % dwork[i][1] == 0 for x in merged_of(i))),
+        "single_original_dim_above_limit_kept_by_merge": sum(1 for i in okd if dwork[i][2] and any(x > dwork[i][1] for x in merged_of(i))),
+        "parameter_at_nonzero_storage_offset": sum(1 for w in dwork if (w[1] + len(w[0]) + int(w[2])) % 3 != 0),
+        "parameter_dtype_float16": dclass.count("dtype_float16"), "parameter_dtype_bfloat16": dclass.count("dtype_bfloat16"),
+        "parameter_dtype_float64": dclass.count("dtype_float64"), "parameter_dtype_float32": sum(1 for v in dvar if v[0] == "float32"),
+        "nn_Parameter_requires_grad_True": sum(1 for v in dvar if v[1]),
+        "large_parameter_through_Distributor (numel up to 3e5, sizes no multiple of the limit)": dclass.count("large_parameter"),
+        "update_params_observed": sum(1 for i in okd if dres[i]["storage"] is not None),
+        "gradient_layout_non_default_strides": sum(1 for w, r in zip(gwork, gres) if r.get("gstride") is not None and r["gstride"] != [math.prod(w[0][i + 1:]) for i in range(len(w[0]))]),
+        "gradient_layout_channels_last": sum(1 for w in gwork if w[3] == ("perm", (0, 2, 3, 1))),
+        "gradient_layout_gapped_with_storage_offset": sum(1 for w in gwork if w[3][0] == "gap"),
+        "parameter_layout_non_contiguous": len(pwork), "parameter_layout_refused_no_view_exists": sum(1 for r in pres if "refused" in r),
+        "parameter_layout_row_padded_narrow": sum(1 for w in pwork if w[3][0] == "pad"),
+        "parameter_layout_with_same_layout_gradient": sum(1 for w in pwork if w[4] == "same"),
+        "multi_call_sequences": len(qwork), "multi_call_calls": len(qitems),
+        "multi_call_same_count_different_pattern": sum(1 for w, rs in zip(qwork, qres) for a, b2, ra, rb in zip(w[3], w[3][1:], rs, rs[1:]) if a != b2 and "sel" in ra and "sel" in rb and sum(ra["sel"]) == sum(rb["sel"])),
+        "multi_call_pattern_repeated_unchanged (second call, cached selector path)": sum(1 for w in qwork for a, b2 in zip(w[3], w[3][1:]) if a == b2),
+        "multi_call_no_gradient_at_all": sum(1 for w in qwork for a in w[3] if not any(a)),
+        "multi_call_gradient_present_for_a_subset": sum(1 for w in qwork for a in w[3] if any(a) and not all(a)),
+        "multi_call_transposed_gradient_on_every_second_call": sum(1 for w in qwork for ci, a in enumerate(w[3]) if ci % 2 == 1 and any(on and len(sh) >= 2 for on, sh in zip(a, w[0]))),
+        "multi_call_parameters_with_unequal_block_counts": sum(1 for w in qwork if len(set(w[0])) > 1),
+        "merge_small_dims_random_order_0_to_7": len(mwork), "merge_small_dims_threshold_on_or_next_to_a_product": sum(1 for sh, thr in mwork if any(abs(math.prod([d for d in sh if d != 1][a:b2]) - thr) <= 1 for a in range(len(sh)) for b2 in range(a + 1, len(sh) + 1))),
+        "multi_dim_split_random_large": len(swork),
+        "inv_optimizer_configurations": ncfg, "inv_runs": len(iwork),
+        "inv_epsilon_1e-12_default": sum(1 for w in iwork if w[4] == 1e-12),
+    })
+    audit.update(kinds_i)
+    ck.coverage["quantifier_audit"] = audit
+    ck.coverage["not_exercised"] = {
+        "tensors with a dimension of size 0": "the model's theorems assume positive dims and there is no element to tile; torch gives empty tensors strides with max(size,1), so the stride-level model does not apply (probed by hand: the code returns empty blocks without raising)",
+        "order > 6": "theorems are by induction over the order; the Distributor stream stops at order 6, the utilities at order 7",
+        "integer / complex / float8 parameter dtypes": "not optimizer parameter dtypes; blocking code is dtype-agnostic, covered for float16/bfloat16/float32/float64",
+        "CUDA / other devices": "no GPU in the sandbox",
+        "parameters whose storage overlaps itself (expanded, stride 0) or is shared between two parameters": "update_params on such views is undefined behaviour in torch; the exactly-once clause cannot hold for them",
+        "DTensor / FSDP / HSDP / FullyShard distributor subclasses": "they override _merge_and_block_parameters/_gradients; covered by C06-C08",
+        "contiguous-clone invariance variant (B2) as a verdict outside float64 + epsilon>=1e-8 + ordinary gradients": "other kernels for contiguous operands give 1-ulp noise that degenerate/low-precision runs amplify; there B2 is measured and only the same-strided variant (bit-exact expected) is judged",
+        "invariance for ALL optimizer configurations": f"{ncfg} configurations x random shapes are run; the universally quantified statement is the Coq theorem C05_blocked_eq_presplit on the structural model",
+        "half-precision parameters with QR/eigh based eigenvalue-corrected configurations in the invariance runs": "no half-precision kernels for those factorizations on this platform (C03 covers the dtype pairings of those paths)",
+    }
     ck.notes.append("blocked_eq_presplit: proved on the structural model (props/C05.v, via Masks.v + OptimizerMasks.v); the implementation-vs-implementation runs test it on the real optimizer")
     ck.assumptions += ["torch view/split/detach/storage_offset/stride behave as observed (blocks identified by storage pointer + offset + sizes + strides)",
                        "torch._foreach_add_ on views writes through to the parameter (exercised by the update test on every enumerated case)"]
@@ -810,7 +999,7 @@ def replay(obj) -> bool:
     common.assert_repo_imports()
     kind = obj.get("kind")
     if kind == "distributor":
-        r = dist_case((tuple(obj["shape"]), obj["thr"], bool(obj["merge"])))
+        r = dist_case((tuple(obj["shape"]), obj["thr"], bool(obj["merge"]), tuple(obj.get("var") or ("float32", False))))
         print("implementation returns", {k: r.get(k) for k in ("exc", "merged", "nb", "pb", "gb", "ok_p", "ok_g", "ok_u")})
         print("recorded", {k: (obj.get("impl") or {}).get(k) for k in ("merged", "nb", "pb", "gb")} if isinstance(obj.get("impl"), dict) else obj.get("impl"))
     elif kind == "merge":
